@@ -155,6 +155,16 @@ CLAIMED = {
          'initialiser give no verdict; overwritten type arguments are checked for shape only',
     technique='bounded symbolic execution of TypeOverwriting under a symbolic RNG over program families; IR diff + declarative relation + small reference typer',
     design='4/C04'),
+ 'C12': dict(
+    text='Bounded symbolic exploration over program families: for every member, every perturbation kind (declared variable type, '
+         'declared return type, diamond flag of an instantiation or generic call, finality) and every site of that kind (solver '
+         'integers) the real translator output before/after is compared: the toggle is visible where the target language can '
+         'express it, the change starts at the declaration, and user-class tokens of the type occur strictly more often when the '
+         'annotation is carried; on the unperturbed text every declared class/function/field/parameter/variable/type-parameter/'
+         'supertype name and every string/numeric literal occurs and brackets/quotes are balanced.',
+    note='trusted: token-level scanners and the per-language expressibility table; semantic equivalence of the text is C02 territory',
+    technique='bounded symbolic exploration of single-attribute perturbations with metamorphic comparison of translator output + inventory scan',
+    design='4/C12'),
 }
 
 NOT_YET = 'check not built yet in this round (planned per DESIGN.md build order); not claimed'
